@@ -46,7 +46,7 @@ Definition volvo_trigger (u : unit_cfg) (s : vstate) (now : Z) (o : object) : vs
   | _ => (s, [])
   end.
 
-Definition age_at (s : vstate) (now : Z) : age := if volvo_timeout_ms <? now - v_tx_time s then Old else Young.
+Definition age_at (s : vstate) (now : Z) : age := if volvo_timeout_ms <=? now - v_tx_time s then Old else Young   (* elapsed() > timeout with elapsed = delta + eps *).
 
 Definition volvo_tick (u : unit_cfg) (s : vstate) (now : Z) : list frame :=
   let sig := reported (v_ctx s) in
